@@ -59,6 +59,11 @@ def check_text(text, ap, model, rng, tags):
     r = model.call([60, dcfg, icfg, tk[1]]) if tk is not None else None
     if dcfg:
         cl.add("dcache")
+    if r is not None and text.splitlines() and all(__import__("lex_corr").in_domain(l) for l in text.splitlines()):
+        r93 = model.call([93, dcfg, icfg, text_lines(text)])
+        if r93 != r:
+            k = next((j for j in range(min(len(r), len(r93))) if r[j] != r93[j]), None)
+            out["corr"].append(("disagreement", f"the model's lexer+assembler on the TEXT differs from the model's assembler on the real tokenizer's tokens (component {k})"))
     merr = (r[0][0] if r[0] else None) if r is not None else None
     if err is not None:
         cl.add("err:%d" % err[0])
@@ -162,6 +167,64 @@ def run_text_case(case, model):
     return f, ["corpus"]
 
 
+def text_lines(text):
+    return [[ord(c) for c in ln] for ln in text.splitlines()]
+
+
+class RvLex(Slice):
+    """the RISC-V tokenizer inside the model (Model/Lex.v) against the real pyparsing tokenizer: per line the verdict (blank /
+    syntax error / accepted), per text the whole load (lexer + assembler on the text = load_program: error class and line, every
+    field of every instruction, every byte of the data segment)"""
+    name = "rv-lex"
+
+    def gen(self, rng, index, tier):
+        import lex_corr as L
+        name, g = L.GENS[index % len(L.GENS)]
+        lines = g(rng)
+        return {"stream": name, "lines": [l for l in lines if L.in_domain(l)][:40]}
+
+    def run(self, case, model):
+        import lex_corr as L
+        lines = case["lines"]
+        findings, cl = [], {"stream:" + case.get("stream", "corpus")}
+        for l in dict.fromkeys(lines):
+            a = L.real_line(l)[0]
+            r = model.call([92, [ord(c) for c in l]])
+            cl.add(["blank", "syntax", "tokens"][a])
+            if not r[1]:
+                findings.append(("disagreement", f"line {l!r} is outside the lexer's stated domain although it is a splitlines() element"))
+            elif r[0] != a:
+                findings.append(("disagreement", f"line {l!r}: real tokenizer says {['blank', 'syntax error', 'accepted'][a]}, model lexer {['blank', 'syntax error', 'accepted'][r[0]]}"))
+        text = "\n".join(lines)
+        if text.splitlines() == lines:
+            sim, err = RA.impl_load(text)
+            r = model.call([93, [], [], text_lines(text)])
+            merr = r[0][0] if r[0] else None
+            if (err is None) != (merr is None) or (err is not None and err[:2] != merr[:2] and not (err[0] in (9, 10, 11) and merr[0] in (9, 10, 11))):
+                findings.append(("disagreement", f"load_program on the text: impl {err}, model lexer+assembler {merr}"))
+            elif err is None:
+                cl.add("loaded")
+                img = r[1][0]
+                if [[list(f), list(rp)] for f, rp in img[0]] != RA.listing(sim):
+                    findings.append(("disagreement", "text-level load: listing differs from the model's lexer+assembler"))
+                elif r[2] != RA.lower_bytes(sim):
+                    findings.append(("disagreement", "text-level load: data segment bytes differ from the model's lexer+assembler"))
+            else:
+                cl.add("load-error")
+        return findings[:3], cl
+
+    def nontrivial(self, classes):
+        return "tokens" in classes
+
+    def required_classes(self, tier):
+        return ["tokens", "syntax", "blank", "loaded", "load-error", "stream:rendered", "stream:c15-malformed", "stream:mutations", "stream:strings"]
+
+    def shrink(self, case):
+        ls = case["lines"]
+        for i in range(len(ls)):
+            yield dict(case, lines=ls[:i] + ls[i + 1:])
+
+
 class RvAsm(Slice):
     name = "rvasm"
     tag = "C04"
@@ -195,7 +258,7 @@ class RvAsm(Slice):
 
 
 def slices():
-    return [RvAsm()]
+    return [RvAsm(), RvLex()]
 
 
-BUDGET = {"quick": {"rvasm": 1500}, "thorough": {"rvasm": 40000}}
+BUDGET = {"quick": {"rvasm": 1500, "rv-lex": 800}, "thorough": {"rvasm": 40000, "rv-lex": 20000}}
